@@ -1050,7 +1050,7 @@ impl BuiltInFunction {
                         list[idx]
                     };
                     let key_result = func_def.call(
-                        Value::Null,
+                        *func,
                         vec![item],
                         Rc::clone(&heap),
                         Rc::clone(&bindings),
@@ -1101,7 +1101,7 @@ impl BuiltInFunction {
                         list[idx]
                     };
                     let key_result = func_def.call(
-                        Value::Null,
+                        *func,
                         vec![item],
                         Rc::clone(&heap),
                         Rc::clone(&bindings),
@@ -1318,7 +1318,7 @@ impl BuiltInFunction {
                     };
 
                     let result = func_def.call(
-                        Value::Null,
+                        *func,
                         args,
                         Rc::clone(&heap),
                         Rc::clone(&bindings),
@@ -1359,7 +1359,7 @@ impl BuiltInFunction {
                     };
 
                     let result = func_def.call(
-                        Value::Null,
+                        *func,
                         args,
                         Rc::clone(&heap),
                         Rc::clone(&bindings),
@@ -1403,7 +1403,7 @@ impl BuiltInFunction {
                     };
 
                     accumulator = func_def.call(
-                        Value::Null,
+                        *func,
                         args,
                         Rc::clone(&heap),
                         Rc::clone(&bindings),
@@ -1442,7 +1442,7 @@ impl BuiltInFunction {
                     };
 
                     let result = func_def.call(
-                        Value::Null,
+                        *func,
                         args,
                         Rc::clone(&heap),
                         Rc::clone(&bindings),
@@ -1484,7 +1484,7 @@ impl BuiltInFunction {
                     };
 
                     let result = func_def.call(
-                        Value::Null,
+                        *func,
                         args,
                         Rc::clone(&heap),
                         Rc::clone(&bindings),
@@ -1513,7 +1513,7 @@ impl BuiltInFunction {
                     match func_def {
                         Some(fd) => {
                             let result_a = fd.call(
-                                Value::Null,
+                                *func,
                                 vec![*a],
                                 Rc::clone(&heap),
                                 Rc::clone(&bindings),
@@ -1521,7 +1521,7 @@ impl BuiltInFunction {
                                 source,
                             );
                             let result_b = fd.call(
-                                Value::Null,
+                                *func,
                                 vec![*b],
                                 Rc::clone(&heap),
                                 Rc::clone(&bindings),
